@@ -1,6 +1,6 @@
 (* C18 — lemmas about Model/C18.v; the parts live in Proofs/C18_*.v *)
 From Verif Require Import Base.Common Base.Cstr Gen.Consts_default Gen.AnsiTab Gen.StrTab Model.C18.
-From Verif Require Export Proofs.C18_cmp Proofs.C18_lines Proofs.C18_ansi Proofs.C18_dbcs Proofs.C18_tok.
+From Verif Require Export Proofs.C18_cmp Proofs.C18_lines Proofs.C18_lines_ev Proofs.C18_ansi Proofs.C18_dbcs Proofs.C18_tok.
 
 (* every helper whose Go code indexes or slices (and so could panic) or loops on a condition (and so could spin)
    returns normally on every input; the remaining helpers are total functions of the model by their type *)
@@ -42,14 +42,14 @@ Qed.
 
 Lemma run_case_status args : okbad (run_case args).
 Proof.
-  destruct no_crash as [T1 [T2 [T3 [T4 [T5 T6]]]]].
+  destruct no_crash as [T1 [T2 [T3 [T4 [T5 T6]]]]]. destruct no_crash_io as [T7 T8].
   unfold run_case. destruct args as [|g rest]; [right; reflexivity|].
   destruct g as [|op [|? ?]]; [right; reflexivity| |right; reflexivity].
   unfold run_op.
   repeat (apply okbad_if;
     [ repeat match goal with |- okbad (match ?l with _ => _ end) => destruct l end;
       first [ left; reflexivity | right; reflexivity | apply okbad_fnv
-            | apply okbad_wire; first [apply T1 | apply T2 | apply T3 | apply T4 | apply T5 | apply T6] ]
+            | apply okbad_wire; first [apply T1 | apply T2 | apply T3 | apply T4 | apply T5 | apply T6 | apply T7 | apply T8] ]
     | ]).
   right. reflexivity.
 Qed.
